@@ -527,3 +527,55 @@ def seed_tier(argv):
         except ValueError:
             seed = 20260930
     return a.prop, tier, seed, a.replay
+
+
+def replay_generic(prop, path):
+    """re-run the single case of a replay file on the current tree and print both sides"""
+    rp = json.load(open(path))
+    print("replay of %s: %s" % (prop, rp.get("what")))
+    binp = build_harness(rp.get("profile", "dev") if rp.get("profile") in ("dev", "release") else "dev")
+    workdir = os.path.join(COQ, "run", prop)
+    shown = False
+    for key in ("case", "weighted", "sequential", "parallel"):
+        c = rp.get(key)
+        if isinstance(c, dict) and "model" in c and "ctor" in c:
+            c = dict(c, id=0)
+            r = run_harness(binp, "scenario", [c], workdir, shards=1, tag="replay")[0]
+            print("--- implementation on the current tree (%s) ---" % key)
+            print(json.dumps(r, indent=1)[:6000])
+            shown = True
+    if "names" in rp and "ops" in rp:
+        from . import mb
+        c = mb.to_harness(rp["names"], [tuple(o) for o in rp["ops"]], calls=[tuple(x) for x in rp["calls"]] if rp.get("calls") else None)
+        c["id"] = 0
+        r = run_harness(binp, "mbuilder", [c], workdir, shards=1, tag="replay")[0]
+        print("--- implementation on the current tree ---")
+        print(json.dumps(r, indent=1)[:6000])
+        shown = True
+    if rp.get("coq_term"):
+        hdr = None
+        t = rp["coq_term"]
+        if t.startswith("num_"):
+            from . import num
+            hdr = num.HEADER
+        elif t.startswith("mb_check"):
+            from . import mb
+            hdr = mb.HEADER
+        elif t.startswith("c18_check"):
+            from . import c18
+            hdr = c18.HEADER
+        elif t.startswith(("proto_check", "fit_check")):
+            from . import hist
+            hdr = hist.HEADER
+        if hdr:
+            print("--- model verdict on the recorded implementation output (0 = agreement) ---")
+            out = coq_show(prop, hdr, t)
+            k = out.rfind("     = ")
+            print(out[k:k + 400] if k >= 0 else out[-800:])
+            shown = True
+    if rp.get("model_says"):
+        print("--- model (recorded) ---")
+        print(str(rp["model_says"])[-1500:])
+    if not shown:
+        print(json.dumps(rp, indent=1)[:4000])
+    return 0
